@@ -4,7 +4,12 @@ set -e
 cd "$(dirname "$0")"
 export GOPROXY=off GOFLAGS=-mod=mod
 unset GOSUMDB
-(cd lean && lake build)
+(cd lean && lake build driver)
+# every property module that exists (each check also builds its own target)
+for f in lean/GoderiveModel/Props/C*.lean; do
+  m=$(basename "$f" .lean)
+  (cd lean && lake build "GoderiveModel.Props.$m") || echo "setup: WARNING: GoderiveModel.Props.$m does not build"
+done
 python3 - <<'PY'
 import sys
 sys.path.insert(0, ".")
